@@ -156,6 +156,39 @@ def existence_patterns(ctx, rule='A5p'):
     ctx.ob(rule, fkey(ra, rule, 'repeated-if-any-member'), ok, ra.where, '', '')
 
 
+def amount_filter_membership(ctx, rule='A13g'):
+    """The admissible numbers of connections of a connector are a *list that may have gaps* (a grouping connector
+    over members [1] and [0,2] accepts {1, 3}).  Where the generator filters candidate amounts against such a list
+    (`for i, n_conn in enumerate(n_conns)`), the list is consulted as a set (set difference, `in`, np.isin) - a
+    filter that looks only at len()/min()/max() of it accepts the amounts inside a gap."""
+    fn = ctx.fn('adsg_core.optimization.assign_enc.matrix:AggregateAssignmentMatrixGenerator._iter_conn_slots_inner_')
+    loops = [l for l in ast.walk(fn.node) if isinstance(l, ast.For) and isinstance(l.iter, ast.Call) and
+             norm(l.iter.func) == 'enumerate' and l.iter.args and norm(l.iter.args[0]) == fn.params[0] and
+             isinstance(l.target, ast.Tuple) and len(l.target.elts) == 2 and isinstance(l.target.elts[1], ast.Name)]
+    if not loops:
+        raise AnalysisError('_iter_conn_slots_inner_: filter loop over the admissible amounts not found')
+    for lp in loops:
+        var = lp.target.elts[1].id
+        parents = {}
+        for p_ in ast.walk(lp):
+            for ch in ast.iter_child_nodes(p_):
+                parents[id(ch)] = p_
+        as_set = []
+        for x in ast.walk(lp):
+            if isinstance(x, ast.Name) and x.id == var and isinstance(x.ctx, ast.Load):
+                par = parents.get(id(x))
+                if isinstance(par, ast.Call) and norm(par.func).split('.')[-1] in ('set', 'frozenset', 'isin', 'in1d') and \
+                        x in par.args:
+                    as_set.append(par)
+                elif isinstance(par, ast.Compare) and isinstance(par.ops[0], (ast.In, ast.NotIn)) and \
+                        x in par.comparators:
+                    as_set.append(par)
+        ctx.ob(rule, fkey(fn, rule, f'amount-filter-is-membership:{var}'), bool(as_set), f'{fn.module.relpath}:{lp.lineno}',
+               f'candidate amounts are kept only if they are members of the admissible list `{var}` (set difference / '
+               f'in / np.isin)', short(as_set[0], 60) if as_set else
+               f'`{var}` is never used as a set in the filter: a range test accepts amounts that fall into a gap of the list')
+
+
 def check(ctx):
     edges.check_walks(ctx, anchors=[f'{NODES}:ConnectionChoiceNode.get_excluded_edges',
                                     f'{NODES}:ConnectionChoiceNode.get_conn_node_derivations',
@@ -176,11 +209,17 @@ def check(ctx):
     from ..rules import shapes as _sh10
     _sh10.check_override_reductions(ctx)
     ctx.floor('A10g', 1, 'reductions over per-scenario degree lists')
+    from ..rules import persist as _psm
+    _psm.check_decode_memos(ctx)
+    amount_filter_membership(ctx)
 
 
 from ..selftest import V  # noqa: E402
 
 VARIANTS = [
+    V('amount-filter-by-range', 'optimization/assign_enc/matrix.py',
+      [("                n_invalid = set(tgt_n_conns) - set(n_conn)\n                if len(n_invalid) > 0:\n                    invalid_mask = np.zeros((len(tgt_n_conns),), dtype=bool)\n                    for n in n_invalid:\n                        invalid_mask |= tgt_n_conns == n\n                    n_tgt_combs = n_tgt_combs[~invalid_mask, :]\n",
+        "                valid_mask = (tgt_n_conns >= min(n_conn)) & (tgt_n_conns <= max(n_conn))\n                n_tgt_combs = n_tgt_combs[valid_mask, :]\n")], key='A13g'),
     V('empty-degree-list-crashes-encoding', 'optimization/assign_enc/matrix.py',
       [("max([max(n_conns) for n_conns in override_map.values() if len(n_conns) > 0], default=0)", "max([max(n_conns) for n_conns in override_map.values()])")], key='A10g'),
     V('pattern-state-overwritten-by-later-pattern', 'optimization/assign_enc/patterns/patterns.py',
